@@ -72,6 +72,12 @@ func (w *worker) run(ctx context.Context) {
 	for ctx.Err() == nil {
 		err = w.pp.svc.Journals.Write(ctx, w.dstTags.String(), &si, true)
 		if err != nil {
+			// the records handed over before the failure are stored in the destination: save how far the cursor got,
+			// otherwise a restart (or the next worker) copies them again
+			if e := w.pp.saveState(w.src, cur.State(ctx)); e != nil {
+				w.logger.Error("Could not save the state after the failed write, may be deleted? err=", e)
+				break
+			}
 			werrs *= 2
 			if werrs > 60 {
 				werrs = 60
